@@ -1,6 +1,27 @@
-(* Properties_C13.v — placeholder until ApiProofs.v lands; see DESIGN.md 4 C13. *)
-From PD Require Import Base NodeModel NodeObs.
-Open Scope string_scope. Open Scope list_scope.
+(* Properties_C13.v — C13: iter(), state_dict() and load_state_dict() compose as documented.
+   Nodes Loader part on NodeModel.v (proofs in NodeResumeProofs.v); see DESIGN.md 4 C13 for the
+   StatefulDataLoader front-end. *)
+From PD Require Import Base NodeModel NodeObs NodeResumeProofs.
+Open Scope string_scope. Open Scope list_scope. Open Scope nat_scope.
+
+(* a state taken inside the epoch resumes there, whatever restart_on_stop_iteration is *)
+Theorem C13_loader_resume_mid : forall p k restart0 restart, pipe_ok p = true -> k < length (sem p 0) ->
+  ld_drain p (FUEL p) (ld_resumed p restart0 restart k) = (skipn k (sem p 0), true).
+Proof. exact loader_resume_mid. Qed.
+Print Assumptions C13_loader_resume_mid.
+
+(* a state taken after the last item resumes into the next epoch ... *)
+Theorem C13_end_state_resumes_next_epoch : forall p restart0, pipe_ok p = true ->
+  ld_drain p (FUEL p) (ld_resumed p restart0 true (length (sem p 0))) = (sem p 1, true).
+Proof. exact loader_resume_end_restart. Qed.
+Print Assumptions C13_end_state_resumes_next_epoch.
+
+(* ... or, with restart_on_stop_iteration = False, into an empty one *)
+Theorem C13_end_state_norestart_empty : forall p restart0, pipe_ok p = true ->
+  ld_drain p (FUEL p) (ld_resumed p restart0 false (length (sem p 0))) = ([], true).
+Proof. exact loader_resume_end_norestart. Qed.
+Print Assumptions C13_end_state_norestart_empty.
+
 (* regression for D4 (fixed by d28e551): state_dict(); load_state_dict(sd); iter() starts from sd *)
 Example C13_state_load_iter :
   let p := PSrc (map INat [0;1;2;3;4]) false in
@@ -11,5 +32,3 @@ Example C13_state_load_iter :
         OL [OS "state"; OL [OL [OS "num_yielded"; OZ 0]; OL [OS "root"; OL [OL [OS "_num_yielded"; OZ 0]]]]];
         OS "load"; OS "iter"; OL [OS "item"; OZ 2]].
 Proof. vm_compute. reflexivity. Qed.
-Theorem C13_placeholder : True. Proof. exact I. Qed.
-Print Assumptions C13_placeholder.
